@@ -94,7 +94,7 @@ BlockDev(T, dv) ==
       [] dv = "f_unknown" -> Refit(SetFilter(T, 1, [id |-> "unknown", plen |-> T.filters[1].plen, pok |-> TRUE]))
       [] dv = "f_reserved" -> Refit(SetFilter(T, 1, [id |-> "reserved", plen |-> T.filters[1].plen, pok |-> TRUE]))
       [] dv = "f_lzma2_plen" -> Refit(SetFilter(T, Len(T.filters), [id |-> "lzma2", plen |-> 2, pok |-> TRUE]))
-      [] dv = "f_lzma2_pbad" -> SetFilter(T, Len(T.filters), [id |-> "lzma2", plen |-> 1, pok |-> FALSE])
+      [] dv = "f_lzma2_pbad" -> Refit(SetFilter(T, Len(T.filters), [id |-> "lzma2", plen |-> 1, pok |-> FALSE]))
       [] dv = "f_nonlast_plen" -> Refit(SetFilter(T, 1, [id |-> T.filters[1].id, plen |-> 2, pok |-> TRUE]))
       [] dv = "f_bcj_align" -> LET k == CHOOSE k \in 1..Len(T.filters) : T.filters[k].id \in {"arm64", "arm", "powerpc", "sparc"} /\ T.filters[k].plen = 4
                                IN SetFilter(T, k, [T.filters[k] EXCEPT !.pok = FALSE])
@@ -159,7 +159,10 @@ DevBases ==
     IN {[streams |-> <<MkStream(c, two, 0)>>] : c \in Checks}
        \cup {[streams |-> <<MkStream(c, one, 4), MkStream(1, one, 0)>>] : c \in {1, 0}}
        \cup {[streams |-> <<MkStream(1, <<>>, 0)>>]}
-FileSpace == ValidFiles
+FileSpace0 == ValidFiles
              \cup (IF DevDepth >= 1 THEN UNION {Dev1(f) : f \in DevBases} ELSE {})
              \cup (IF DevDepth >= 2 THEN UNION {UNION {Dev1(g) : g \in Dev1(f)} : f \in {[streams |-> <<MkStream(1, <<BlockOf(Opt(BaseD, TRUE, TRUE, 2, 4))>>, 0)>>]}} ELSE {})
+(* only layouts that can be written: a header as written is a multiple of four bytes *)
+Writable(f) == \A s \in 1..Len(f.streams) : \A b \in 1..Len(f.streams[s].blocks) : HdrReal(f.streams[s].blocks[b]) % 4 = 0
+FileSpace == {f \in FileSpace0 : Writable(f)}
 =============================================================================
